@@ -109,7 +109,7 @@ def _attrs_enabled(attrs, features):
 # enums defined outside the crate (hard-wired; checked by the differential validation)
 EXTERNAL_ENUMS = {
     'Option': ['None', 'Some'], 'Result': ['Ok', 'Err'], 'ControlFlow': ['Continue', 'Break'],
-    'Poll': ['Ready', 'Pending'], 'Cow': ['Borrowed', 'Owned'],
+    'Poll': ['Ready', 'Pending'], 'Ordering': ['Less', 'Equal', 'Greater'], 'Cow': ['Borrowed', 'Owned'],
     'MediaType': ['JavaScript', 'Jsx', 'Mjs', 'Cjs', 'TypeScript', 'Mts', 'Cts', 'Dts', 'Dmts', 'Dcts', 'Tsx',
                   'Css', 'Json', 'Jsonc', 'Json5', 'Markdown', 'Html', 'Sql', 'Wasm', 'SourceMap', 'Unknown'],
     'DecodedArcSourceDetailKind': ['Unchanged', 'Changed', 'OnlyUtf8Bom'],
@@ -128,3 +128,6 @@ def feature_closure(cargo_toml, default=True):
         if f in feats or '/' in f: continue
         feats.add(f); todo += table.get(f, [])
     return feats
+
+# explicit discriminants (variant index otherwise); Ordering is repr(i8) with Less = -1
+EXPLICIT_DISCRIMINANTS = {'Ordering': {'Less': 255, 'Equal': 0, 'Greater': 1}}
